@@ -51,6 +51,14 @@ CLAIMS = {
         "TLC; every TLC-enumerated configuration sequence is pushed by scripted endpoints and the consolidated configuration compared after each push.",
    note="Bounds: MC 3 endpoints x 2 requests (1.8e5 states); configs: all sequences <=2 (quick) / <=3 (thorough) per field over boundary alphabets; traces: 75/900 schedules on 1-3 endpoints. Calendar first/last time consolidation is model-checked but bound only through aggregator fields (maxlevel, period, maxreq). Defect F-C15-1 fixed.",
    technique="TLC model checking + TLC trace validation with link-time interposed sub-service calls + replay of TLC-enumerated configuration sequences"),
+ "C09": dict(level="model_checking", design_ref="DESIGN.md 4/C09",
+   text="Tlv.tla states the wire format twice: byte-exact Encode / Parse (exact tiling at every expanded level) / one-element reads on small trees with the "
+        "theorems RoundTrip, MinimalHeader, TruncationsRejected, ReadOneConsumesOne, and header + size arithmetic over abstract lengths up to 65537; TLC checks "
+        "the theorems on every case and exports the spec's value (incl. the verdict for every truncation and +-1 length-byte change); every case is replayed "
+        "through KSI_TLV (parse, nested lists, serialize, clone, writeBytes into buffers of needed size -2..+5), KSI_TlvElement and the KSI_FTLV memory, file and "
+        "socket readers.",
+   note="Bounds: tags {1,31,32,8191} x flags x payloads, nodes with <=2 children, depth 2 in thorough; header cases tags x lengths {0..65537}; two-child sizes around 65535; 256 first bytes x all second bytes in TLC (5 sampled in replay). Defect F-C09-1 fixed.",
+   technique="TLC-checked TLA+ codec specification; exhaustive TLC-generated case tables replayed into the three libksi codecs"),
 }
 for e in ENGINES:
     e["serves_properties"] = sorted(CLAIMS)
